@@ -646,6 +646,8 @@ const prelude = `
 (declare-fun gs.atoi (Str) Int)
 (declare-fun gs.fmtfloat (F64) Str)
 (declare-fun gs.frombyte ((_ BitVec 8)) Str)
+(declare-fun gs.fromrune (Int) Str)
+(declare-fun rune.ofbyte ((_ BitVec 8)) Int)
 (declare-fun f.log (Real) Real)
 (declare-fun cig.type (Int) (_ BitVec 8))
 (declare-fun cig.typestr ((_ BitVec 8)) Str)
